@@ -169,6 +169,14 @@ def gen_random(rnd):
         else:
             stmts.append(apm.blk(".align", apm.num(rnd.randrange(1, 65), rnd.choice([None, "d"]))))
             tags.append("align")
+    # some statements become the body of a '.repeat' (with an alignment directive ahead of an odd-sized payload): every copy is laid
+    # out at its own address
+    for i in range(1, len(stmts)):
+        if rnd.random() < 0.15 and stmts[i].k in ("data", "str", "blk", "simple"):
+            lead = rnd.choice([[apm.simple(".even")], [apm.simple(".odd")], [apm.blk(".align", apm.num(rnd.choice([2, 4, 3])))], []])
+            tail = rnd.choice([[apm.data(".byte", apm.num(rnd.randrange(256)))], []])
+            stmts[i] = apm.repeat(apm.num(rnd.choice([2, 3, 4])), lead + [stmts[i]] + tail)
+            tags.append("repeat|" + (lead[0].d if lead else "-") + f"|{charset}")
     stmts.append(apm.label("tail"))
     stmts.append(apm.data(".byte", apm.num(0o125)))
     for nm, v in consts.items():
